@@ -184,6 +184,17 @@ def monitor_pass(p, prev):
                     f'blob of that storage class'), 'wrong-class'
     # exactly the deleted rows / files are gone, everything else is untouched
     dset = set(deleted)
+    post_have = {b[0] for b in post.blobs}
+    kept = [h for h in deleted if h in set(pre.disk) and h in set(post.disk) and h not in post_have]
+    if kept:
+        # the pass "removed" these blobs (row dropped, megabytes credited) but the space is still taken: what is stored
+        # after the pass = rows left + the evicted blobs whose file is still there
+        stored = classify(post._replace(blobs=post.blobs + [rows[h] for h in dict.fromkeys(kept)]))['used'][net]
+        return (f'blob {kept[0]} was evicted by the {"network" if net else "content"} pass (row dropped, {mb(rows[kept[0]][1])} MB '
+                f'accounted as freed) but its file is still in the blob directory ({len(kept)} such file(s)): the space really '
+                f'used by this class after the pass is {stored} MB, limit {limit} MB, the table says {classify(post)["used"][net]} MB'
+                + ('; a peer was reading the blob while the pass ran' if set(kept) & set(p.get('serving') or ()) else '')), \
+            'evicted-file-kept'
     if post.blobs != [b for b in pre.blobs if b[0] not in dset]:
         return 'blob rows after the pass are not (rows before) minus (deleted hashes)', 'rows-changed'
     if post.disk != [h for h in pre.disk if h not in dset]:
@@ -457,6 +468,8 @@ async def _run_impl(d, case):
             ids.update((sh, sd))
         ids.update(db['files'])
         ids.update(db['disk'])
+        for h, ln in db.get('file_sizes', []):   # size of blob files that have no row (complete files the table does not know)
+            lengths.setdefault(h, ln)
         for o in case['ops']:
             if o[0] == 'add':
                 ids.add(o[1][0])
@@ -503,6 +516,29 @@ async def _run_impl(d, case):
     passes = []          # every _clean call, monitored
     captured = []
     box = {}
+    serving_open = []
+
+    def serve_blobs():
+        """peers are being served: the blobs in case['serving'] have an open reader (blob.reader_context(), what
+        BlobServer's sendfile holds for the duration of a transfer) on the current BlobManager"""
+        del serving_open[:]
+        for h in case.get('serving', []):
+            if not os.path.isfile(os.path.join(bd, nm(h))):
+                continue
+            blob = box['bm'].get_blob(nm(h))
+            if not blob.is_readable():
+                continue
+            ctx = blob.reader_context()
+            handle = ctx.__enter__()
+            handle.read(100)
+            serving_open.append(ctx)
+
+    def stop_serving():
+        while serving_open:
+            try:
+                serving_open.pop().__exit__(None, None, None)
+            except Exception:
+                pass
 
     def watch_bm(b):
         orig = b.delete_blobs
@@ -513,6 +549,7 @@ async def _run_impl(d, case):
         b.delete_blobs = delete_blobs
         box['bm'], box['orig_delete'] = b, orig
     watch_bm(bm)
+    serve_blobs()
     away = os.path.join(d, 'away')
     os.mkdir(away)
     orig_clean = dsm._clean
@@ -533,7 +570,7 @@ async def _run_impl(d, case):
             raise RuntimeError('delete_blobs called more than once in one pass')
         deleted = captured[0][0] if captured else []
         passes.append({'net': net, 'limit': limit, 'pre': pre, 'post': post, 'deleted': deleted, 'ret': ret, 'exc': exc,
-                       'delete_from_db': captured[0][1] if captured else None,
+                       'delete_from_db': captured[0][1] if captured else None, 'serving': list(case.get('serving', [])),
                        'cands': [[unhex[h], ln, back(a)] for h, ln, a in cands]})
         return ret or 0
     dsm._clean = watched_clean
@@ -627,6 +664,7 @@ async def _run_impl(d, case):
         elif o[0] == 'setup':                     # a restart: a new BlobManager runs setup() (the clock is the harness's)
             now = o[1]
             sizes = sorted([unhex[n], os.stat(os.path.join(bd, n)).st_size] for n in os.listdir(bd) if n in unhex)
+            stop_serving()
             box['bm'].stop()
             nb = BlobManager(loop, bd, st, conf)
             watch_bm(nb)
@@ -641,6 +679,7 @@ async def _run_impl(d, case):
                 await nb.setup()
             finally:
                 blob_file_module.time = real_time
+            serve_blobs()
             resolved.append(['setup', now, sizes])
         elif o[0] == 'fault':                     # an unrelated foreign-keys-off transaction fails (locked database, bad row, ...)
             def boom(t):
@@ -701,6 +740,7 @@ async def _run_impl(d, case):
         ob['files_stopped'] = (all(x == 'stopped' for x in snap.file_status)
                                if snap.file_status and derived is None and not any(r[0] == 'recover' for r in resolved) else None)
         steps.append(ob)
+    stop_serving()
     box['bm'].stop()
     await st.close()
     return {'initial': initial, 'steps': steps, 'init_cands': init_cands, 'derived_db': derived, 'cleans': cleans,
@@ -1050,6 +1090,63 @@ def gen_multi_recover(rng):
     return {'real': {'streams': streams, 'net': []}, 'ops': ops}
 
 
+def gen_serving(rng):
+    """a cleanup pass runs WHILE peers download some of the blobs it evicts (open reader_context on the BlobFile, as
+    BlobServer's sendfile holds); then the node restarts (BlobManager.setup re-reads the directory) and the pass runs again"""
+    blobs, sb, st, fl = [], [], [], []
+    n_net = rng.randrange(2, 7)
+    for k in range(n_net):
+        blobs.append([k + 1, rng.choice([MIB, 2 * MIB, 2 * MIB, MIB + 1, 3 * MIB - 1]), 100 + k, False, True])
+    content = []
+    if rng.random() < 0.6:
+        blobs.append([50, 400, 200, False, True])
+        st.append([900, 50])
+        fl.append(900)
+        for k in range(rng.randrange(2, 5)):
+            blobs.append([51 + k, 2 * MIB, 201 + k, False, True])
+            sb.append([900, 51 + k])
+            content.append(51 + k)
+    if rng.random() < 0.5:
+        blobs.append([80, 2 * MIB, 50, True, True])
+    net_ids = list(range(1, n_net + 1))
+    serving = [1] + [h for h in net_ids[1:] + content if rng.random() < 0.4]      # the oldest network blob is always being read
+    if content and rng.random() < 0.5:
+        serving.append(content[0])
+    r = rng.random()
+    if r < 0.5 or not content:
+        first = ['pass', True, rng.choice([['below', rng.randrange(1000)], ['zero', 0], ['below1', 0], ['abs', 1]])]
+    elif r < 0.75:
+        first = ['pass', False, rng.choice([['below', rng.randrange(1, 1000)], ['below1', 0], ['abs', 1]])]
+    else:
+        first = ['clean', rng.choice([['below', rng.randrange(1, 1000)], ['abs', 1], ['zero', 0]]),
+                 rng.choice([['below', rng.randrange(1000)], ['zero', 0]])]
+    ops = [first, ['setup', 400000], ['repass']]
+    if rng.random() < 0.5:
+        ops.append(['status', 'used'])
+    return {'db': {'blobs': blobs, 'sblobs': sb, 'streams': st, 'files': fl, 'disk': [b[0] for b in blobs]},
+            'ops': ops, 'loaded': [], 'serving': sorted(set(serving))}
+
+
+def gen_backlog(rng, n):
+    """a start-up that finds n (> 500) complete blob files in the directory which the table does not have as finished
+    (database restored from a backup / crash before the rows were written: rows 'pending' or missing), then a pass with a
+    small network limit.  Sparse files."""
+    blobs, sizes = [], []
+    p_row = rng.choice([0.0, 0.5, 1.0])
+    for k in range(1, n + 1):
+        ln = rng.choice([MIB, 2 * MIB])
+        if rng.random() < p_row:
+            blobs.append([k, ln, 1000 + k, False, False])
+        else:
+            sizes.append([k, ln])
+    for k in range(n + 1, n + 1 + rng.randrange(0, 4)):
+        blobs.append([k, 2 * MIB, 10 + k, rng.random() < 0.3, True])      # a few blobs the table already has
+    lim = rng.choice([0, 0, 1, 3])
+    ops = [['setup', 500000], rng.choice([['pass', True, lim], ['clean', 0, lim]]), ['repeat']]
+    return {'db': {'blobs': blobs, 'sblobs': [], 'streams': [], 'files': [], 'file_sizes': sizes,
+                   'disk': [b[0] for b in blobs] + [h for h, _ in sizes]}, 'ops': ops, 'loaded': []}
+
+
 def gen_real(rng):
     sizes = [300000, 1100000, 1500000, 2097151, 2500000, 4194302, 4300000, 6500000]
     streams = [{'size': rng.choice(sizes), 'mine': rng.random() < 0.35, 'file': rng.random() < 0.85}
@@ -1103,7 +1200,7 @@ def check_case(run, model, case, kind):
     mod = model.call('run', db=mdb, ops=case['ops'])
     any_del = any(p['deleted'] for p in passes)
     start_blobs = all_blobs(case['db'])
-    run.case(case, nontrivial=bool(start_blobs) and bool(passes), sample=len(start_blobs) < 200)
+    run.case(case, nontrivial=bool(start_blobs) and bool(passes), sample=len(start_blobs) < 200 and len(case['db']['disk']) < 200)
     prev = None
     bad = None
     for p in passes:
@@ -1179,6 +1276,7 @@ def check_case(run, model, case, kind):
     published = set(case['published']) if 'published' in case else {b[0] for b in start_blobs if b[3]}
     present = {b[0] for b in start_blobs}
     phantom = set()
+    uncharged = {}       # complete blob files the last restart saw in the directory but did not record as finished
     legacy_ids = {r[0] for r in case['db'].get('legacy', [])}
     pi = 0
     for i, o in enumerate(case['ops']):
@@ -1188,13 +1286,21 @@ def check_case(run, model, case, kind):
             published -= set(o[1])
         if o[0] == 'add':
             phantom.discard(o[1][0])
+            uncharged.pop(o[1][0], None)
         elif o[0] == 'restore':
             phantom -= set(o[1])
+        elif o[0] in ('hide', 'delete'):
+            for h in o[1]:
+                uncharged.pop(h, None)
         elif o[0] == 'setup' and i < len(impl['steps']):
             on_disk = set(impl['steps'][i]['disk'])
             phantom = {b[0] for b in impl['steps'][i]['blobs'] if b[4] and b[0] not in on_disk}
             if phantom:
                 run.count('restart left finished rows without a file')
+            fin_rows = {b[0] for b in impl['steps'][i]['blobs'] if b[4]}
+            uncharged = {h: sz for h, sz in o[2] if h in on_disk and h not in fin_rows}
+            if len(o[2]) > 500:
+                run.count('restart found more than 500 blob files in the directory')
         for p in passes[pi:pi + {'pass': 1, 'clean': 2}.get(o[0], 0)]:
             if phantom and p['deleted'] and not bad:
                 real = classify(p['pre'], ignore=phantom)['used'][p['net']]
@@ -1204,6 +1310,24 @@ def check_case(run, model, case, kind):
                            f"although what is stored ({real} MB) is within the limit ({p['limit']} MB): {charged} MB are charged, "
                            f"{len(phantom)} 'finished' row(s) belong to blobs that were already gone at the last restart",
                            {'clause': 'within-limit-stored', 'op': i,
+                            'case': hashlib.sha1(vlib.canon(case).encode()).hexdigest()[:12]})
+            if uncharged and not bad and (p['net'] or p['limit'] != 0) and well_formed(p['pre']):
+                # usage = what is stored: a complete blob file that start-up found in the directory is stored, recorded or not
+                def stored(s):
+                    on, have = set(s.disk), {b[0] for b in s.blobs}
+                    return s._replace(blobs=[(b[0], b[1], b[2], b[3], True) if b[0] in uncharged and b[0] in on else b
+                                             for b in s.blobs]
+                                      + [(h, sz, 0, False, True) for h, sz in sorted(uncharged.items()) if h in on and h not in have])
+                tpre, tpost = classify(stored(p['pre'])), classify(stored(p['post']))
+                excess = tpre['used'][p['net']] - p['limit']
+                if excess > 0 and sum(mb(r[1]) for r in tpre['removable'][p['net']]) >= excess and tpost['used'][p['net']] > p['limit']:
+                    left = sorted(h for h in uncharged if h in set(p['post'].disk))
+                    bad = (f"after the {'network' if p['net'] else 'content'} pass of operation {i} {tpost['used'][p['net']]} MB of this "
+                           f"class are stored, limit {p['limit']} MB, although enough removable blobs existed: the pass saw "
+                           f"{classify(p['pre'])['used'][p['net']]} MB; {len(left)} complete blob file(s) found in the blob directory at "
+                           f"the last start-up ({len([x for x in case['ops'][:i] if x[0] == 'setup'][-1][2])} files) were never recorded "
+                           f"as finished: {left[:3]}",
+                           {'clause': 'limit-not-reached-stored', 'op': i,
                             'case': hashlib.sha1(vlib.canon(case).encode()).hexdigest()[:12]})
             lost = [h for h in p['deleted'] if h in published]
             if lost and not bad:
@@ -1332,6 +1456,14 @@ def main(run):
             if rng.random() < 0.7:      # the first thing after the upgrade is a content pass far over its limit
                 case['ops'] = [['pass', False, rng.choice([['below', rng.randrange(1000)], ['abs', 1], ['neg', 0]])]] + ops
         check_case(run, model, case, 'generated')
+    # round 8 (drawn after everything else, so the older streams of cases per seed are unchanged): passes that run while
+    # peers read blobs being evicted, and start-ups that find more than 500 unrecorded blob files
+    for _ in range(vlib.scaled(run.tier, 12, 200)):
+        check_case(run, model, gen_serving(rng), 'pass-while-serving')
+        run.count('pass while a peer reads a blob (open reader_context)')
+    for n in [501 + rng.randrange(1, 4), 1002 + rng.randrange(1, 40)] + \
+            [rng.randrange(502, 1600) for _ in range(vlib.scaled(run.tier, 0, 6))]:
+        check_case(run, model, gen_backlog(rng, n), 'startup-backlog')
     # the repaired defect, as a statement about the OLD expression (model side; Props has the theorem)
     old = model.call('pass_old', net=False, limit=100,
                      db={'blobs': [[1, 3 * MIB, 1, False, True], [2, 200, 2, False, True]], 'sblobs': [[10, 1]],
